@@ -82,6 +82,8 @@ struct World<T: Elem> {
     case: Case,
     prefix: String,
     insts: Vec<Option<Inst<T>>>,
+    /// twin instances built from the same specifications, only ever used by isolated reference calls
+    refs: Vec<Option<Inst<T>>>,
     planners: Vec<SimMutex<Option<AnyPlanner<T>>>>,
     planner_ok: Vec<bool>,
     history: Mutex<Vec<(Hist, Option<Inst<T>>)>>,
@@ -280,6 +282,15 @@ impl<T: Elem> World<T> {
         }
     }
 
+    /// The instance isolated reference calls go to: a twin built from the same specification for shared instances
+    /// (so that the reference never shares state or call history with the instance under test).
+    fn reference(&self, t: &TCtx<T>, r: InstRef) -> Option<Inst<T>> {
+        match r {
+            InstRef::Shared(i) => self.refs.get(i as usize).and_then(|x| x.clone()).or_else(|| self.resolve(t, r)),
+            InstRef::Local(_) => self.resolve(t, r),
+        }
+    }
+
     fn set_inside(&self, t: &TCtx<T>, inst: Option<u32>) {
         if let Some(s) = &self.sched {
             s.set_inside(t.tid, inst);
@@ -422,7 +433,8 @@ impl<T: Elem> World<T> {
         let total = n * (*k as usize);
         let x = gen_input::<T>(input, total);
         let what = format!("{:?} n={} k={} {:?}", entry, n, k, inst);
-        let reference = isolated_call(&fft, *entry, &x);
+        let rf = self.reference(t, *inst).unwrap_or_else(|| Arc::clone(&fft));
+        let reference = isolated_call(&rf, *entry, &x);
         let adv = advertised(&fft, *entry);
         let inst_id = match inst {
             InstRef::Shared(i) => *i as u32,
@@ -513,7 +525,8 @@ impl<T: Elem> World<T> {
         self.real_call(t, fft, CallParams { entry, input, out_len, scratch_len, scratch_fill: Fill::Zero, out_fill: Fill::Zero, place, ro_input: ro }, inst_id)
     }
 
-    fn judge_shape(&self, t: &mut TCtx<T>, fft: &Inst<T>, entry: Entry, x: &[Complex<T>], out_len: usize, scratch_len: usize, place: Place, inst_id: u32) {
+    #[allow(clippy::too_many_arguments)]
+    fn judge_shape(&self, t: &mut TCtx<T>, fft: &Inst<T>, rf: &Inst<T>, entry: Entry, x: &[Complex<T>], out_len: usize, scratch_len: usize, place: Place, inst_id: u32) {
         let n = fft.len();
         let adv = advertised(fft, entry);
         let (o, s) = match entry {
@@ -530,7 +543,7 @@ impl<T: Elem> World<T> {
         match (&res.out, well) {
             (Ok(o), true) => {
                 // every chunk must have been transformed: compare with the isolated call
-                if let Ok(r) = isolated_call(fft, entry, x) {
+                if let Ok(r) = isolated_call(rf, entry, x) {
                     if !bits_eq(o, &r) {
                         self.report(t, "c09.good-wrong-output", format!("{}: returned normally but output differs from the isolated call at {:?}", what, first_diff(o, &r)));
                     }
@@ -568,7 +581,8 @@ impl<T: Elem> World<T> {
             InstRef::Shared(i) => *i as u32,
             InstRef::Local(i) => 1000 + *i as u32,
         };
-        self.judge_shape(t, &fft, *entry, &x, ol, sl, *place, inst_id);
+        let rf = self.reference(t, *inst).unwrap_or_else(|| Arc::clone(&fft));
+        self.judge_shape(t, &fft, &rf, *entry, &x, ol, sl, *place, inst_id);
     }
 
     fn exec_shapegrid(&self, t: &mut TCtx<T>, op: &Op) {
@@ -577,6 +591,7 @@ impl<T: Elem> World<T> {
             self.count("skipped.no-instance", 1);
             return;
         };
+        let rf = self.reference(t, *inst).unwrap_or_else(|| Arc::clone(&fft));
         let n = fft.len();
         let adv = advertised(&fft, *entry);
         let inst_id = match inst {
@@ -617,13 +632,13 @@ impl<T: Elem> World<T> {
                 for &sl in scr {
                     let place = crate::arena::PLACES[pi % 4];
                     pi += 1;
-                    self.judge_shape(t, &fft, *entry, &x, ol, sl, place, inst_id);
+                    self.judge_shape(t, &fft, &rf, *entry, &x, ol, sl, place, inst_id);
                 }
             }
         }
         // the instance must still be usable after all those unwinds
         let x = gen_input::<T>(&InputSpec { seed: rng.next(), kind: InputKind::Dense }, n);
-        let r1 = isolated_call(&fft, *entry, &x);
+        let r1 = isolated_call(&rf, *entry, &x);
         let res = self.shaped_call(t, &fft, *entry, &x, n, adv, Place::Right, inst_id);
         match (&res.out, &r1) {
             (Ok(a), Ok(b)) if bits_eq(a, b) => {}
@@ -641,7 +656,8 @@ impl<T: Elem> World<T> {
         let total = n * (*k as usize);
         let x = gen_input::<T>(input, total);
         let adv = advertised(&fft, *entry);
-        let Ok(reference) = isolated_call(&fft, *entry, &x) else {
+        let rf = self.reference(t, *inst).unwrap_or_else(|| Arc::clone(&fft));
+        let Ok(reference) = isolated_call(&rf, *entry, &x) else {
             self.report(t, "c08.advertised-insufficient", format!("{:?} n={} k={}: call with zeroed scratch of the advertised length {} panics", entry, n, k, adv));
             return;
         };
@@ -711,7 +727,8 @@ impl<T: Elem> World<T> {
             }
         }
         let what = format!("{:?} n={} k={} keep={} fill={:?}", entry, n, k, keep, fill);
-        let Ok(b) = isolated_call(&fft, *entry, &benign) else { return };
+        let rf = self.reference(t, *inst).unwrap_or_else(|| Arc::clone(&fft));
+        let Ok(b) = isolated_call(&rf, *entry, &benign) else { return };
         let adv = advertised(&fft, *entry);
         let ro = *entry == Entry::Immut && cfg!(not(miri)) && self.ro_props();
         let res = self.real_call(t, &fft, CallParams { entry: *entry, input: &poisoned, out_len: total, scratch_len: adv, scratch_fill: Fill::Zero, out_fill: Fill::Zero, place: Place::Right, ro_input: ro }, 0);
@@ -724,7 +741,7 @@ impl<T: Elem> World<T> {
                     self.report(t, "c07.neighbour-leak", format!("{}: the kept chunk changed when its neighbours were poisoned", what));
                 }
                 // the kept chunk equals the chunk passed alone, up to rounding
-                let single = isolated_call(&fft, *entry, &benign[keep * n..(keep + 1) * n]);
+                let single = isolated_call(&rf, *entry, &benign[keep * n..(keep + 1) * n]);
                 if let Ok(s) = single {
                     let refc = oracle::to_c64(&s);
                     let err = oracle::l2_dist(&o[keep * n..(keep + 1) * n], &refc);
@@ -925,6 +942,7 @@ impl<T: Elem> World<T> {
         let total = n * (*k as usize);
         let x = gen_input::<T>(input, total);
         elem::fx_reset_ops();
+        // (the operation count must come from the instance itself; the twin gives the reference bits)
         let Ok(reference) = isolated_call(&fft, *entry, &x) else { return };
         let ops = elem::fx_ops();
         if ops == 0 {
@@ -1081,6 +1099,7 @@ fn build_world<T: Elem>(case: &Case, sched: Option<Arc<Sched>>) -> World<T> {
         case: case.clone(),
         prefix,
         insts: Vec::new(),
+        refs: Vec::new(),
         planners: Vec::new(),
         planner_ok: Vec::new(),
         history: Mutex::new(Vec::new()),
@@ -1145,8 +1164,36 @@ fn build_world<T: Elem>(case: &Case, sched: Option<Arc<Sched>>) -> World<T> {
             }
         }
     }
+    // twin instances for the isolated reference calls: same specifications, twin planners fed the same prologue requests
+    {
+        let mut twin_planners: Vec<Option<AnyPlanner<T>>> = case.planners.iter().map(|_| None).collect();
+        for (i, d) in case.insts.iter().enumerate() {
+            if w.insts[i].is_none() {
+                w.refs.push(None);
+                continue;
+            }
+            let r = catch_unwind(AssertUnwindSafe(|| -> Result<Inst<T>, String> {
+                if let Some(pi) = d.from_planner {
+                    let pi = pi as usize;
+                    if twin_planners[pi].is_none() {
+                        twin_planners[pi] = AnyPlanner::new(case.planners[pi]);
+                    }
+                    match twin_planners[pi].as_mut() {
+                        Some(p) => Ok(p.plan(d.spec.len(), d.dir)),
+                        None => Err("planner unavailable".into()),
+                    }
+                } else {
+                    world::build::<T>(&d.spec, d.dir)
+                }
+            }));
+            w.refs.push(match r {
+                Ok(Ok(f)) => Some(f),
+                _ => None,
+            });
+        }
+    }
     for d in case.shared_bufs.iter() {
-        let Some(Some(fft)) = w.insts.get(d.inst as usize) else {
+        let Some(Some(fft)) = w.refs.get(d.inst as usize).or(w.insts.get(d.inst as usize)) else {
             w.shared.push(None);
             continue;
         };
@@ -1164,7 +1211,7 @@ fn build_world<T: Elem>(case: &Case, sched: Option<Arc<Sched>>) -> World<T> {
 fn epilogue<T: Elem>(w: &World<T>) {
     // C07: the split world — every chunk processed through its own sub-slice by some thread
     for sb in w.shared.iter().flatten() {
-        let Some(Some(fft)) = w.insts.get(sb.def.inst as usize) else { continue };
+        let Some(Some(fft)) = w.refs.get(sb.def.inst as usize).or(w.insts.get(sb.def.inst as usize)) else { continue };
         let touched = sb.touched.lock().unwrap().clone();
         if !touched.iter().any(|x| *x) {
             continue;
